@@ -173,6 +173,10 @@ func Resolve(v ssa.Value) ssa.Value {
 			}
 			a := CellOf(x.X)
 			if a == nil {
+				if fv := fieldOfHelperStruct(x); fv != nil {
+					v = fv
+					continue
+				}
 				return v
 			}
 			st := StoresToCell(a)
@@ -187,6 +191,138 @@ func Resolve(v ssa.Value) ssa.Value {
 	return v
 }
 
+// fieldOfHelperStruct: ld reads field f of a struct whose construction the analysis can see – built and returned by a helper
+// analysed as part of this function (`res := expand(…); use(res.pattern)`), or the receiver of a method that is a closure in all
+// but syntax (`op := loadOp{now: t}; m.Replace(k, op.onReplace)` – inside onReplace, op.now is t): the one value ever stored into
+// that field. nil when the field is written more than once or the struct's origin is not visible.
+func fieldOfHelperStruct(ld *ssa.UnOp) ssa.Value {
+	fa, ok := ld.X.(*ssa.FieldAddr)
+	if !ok {
+		return nil
+	}
+	// only for structs that cross a function boundary the analysis looks through; a struct built and read in one function is
+	// left to the flow-sensitive ForwardFieldLoad
+	if !crossesBoundary(fa.X, ld.Parent(), 0) {
+		return nil
+	}
+	return structFieldValue(fa.X, fa.Field, 0)
+}
+
+func crossesBoundary(base ssa.Value, fn *ssa.Function, d int) bool {
+	if d > 6 {
+		return false
+	}
+	switch x := unwrapNoPath(base).(type) {
+	case *ssa.Parameter:
+		return true
+	case *ssa.Call, *ssa.Extract:
+		return true
+	case *ssa.FreeVar:
+		return true
+	case *ssa.UnOp:
+		return x.Op == token.MUL && crossesBoundary(x.X, fn, d+1)
+	case *ssa.Alloc:
+		if x.Parent() != fn {
+			return true
+		}
+		// a local copy of a by-value receiver / parameter / helper result
+		for _, u := range Referrers(x) {
+			if st, isSt := u.(*ssa.Store); isSt && st.Addr == ssa.Value(x) {
+				if crossesBoundary(st.Val, fn, d+1) {
+					return true
+				}
+			}
+		}
+	}
+	return false
+}
+
+// structFieldValue: the single value stored into field #field of the struct `base` denotes (a struct value, a pointer to one, or a
+// variable holding one).
+func structFieldValue(base ssa.Value, field, d int) ssa.Value {
+	if d > 10 || base == nil {
+		return nil
+	}
+	switch x := unwrapNoPath(base).(type) {
+	case *ssa.UnOp:
+		if x.Op == token.MUL {
+			return structFieldValue(x.X, field, d+1)
+		}
+	case *ssa.FreeVar:
+		return structFieldValue(BindingOf(x), field, d+1)
+	case *ssa.Parameter:
+		g := x.Parent()
+		if b := BinderOf(g); b != nil && len(g.Params) > 0 && g.Params[0] == x {
+			// the receiver of a method used only as one method value: the value bound there
+			var bound ssa.Value
+			n := 0
+			InstrsOwn(b, func(in ssa.Instruction) {
+				if mk, isMk := in.(*ssa.MakeClosure); isMk && len(mk.Bindings) == 1 {
+					if w, isF := mk.Fn.(*ssa.Function); isF {
+						if t, shift := MethodBehind(w); shift == 1 && t == bodyOf(g) {
+							bound = mk.Bindings[0]
+							n++
+						}
+					}
+				}
+			})
+			if n == 1 {
+				return structFieldValue(bound, field, d+1)
+			}
+			return nil
+		}
+		sites := SitesOf(g)
+		if len(sites) == 1 && !sites[0].Common().IsInvoke() {
+			for k, q := range g.Params {
+				if q == x && k < len(sites[0].Common().Args) {
+					return structFieldValue(sites[0].Common().Args[k], field, d+1)
+				}
+			}
+		}
+	case *ssa.Call:
+		if h := AbsorbedCallee(x); h != nil && h.Signature.Results().Len() == 1 {
+			return structFieldValue(uniqueResult(h, 0), field, d+1)
+		}
+	case *ssa.Extract:
+		if c, ok := x.Tuple.(*ssa.Call); ok {
+			if h := AbsorbedCallee(c); h != nil {
+				return structFieldValue(uniqueResult(h, x.Index), field, d+1)
+			}
+		}
+	case *ssa.Alloc:
+		var val ssa.Value
+		n := 0
+		for _, u := range Referrers(x) {
+			switch r := u.(type) {
+			case *ssa.FieldAddr:
+				if r.Field != field {
+					continue
+				}
+				for _, uu := range Referrers(r) {
+					if st, isSt := uu.(*ssa.Store); isSt && st.Addr == ssa.Value(r) {
+						n++
+						val = st.Val
+					}
+				}
+			case *ssa.Store:
+				if r.Addr == ssa.Value(x) {
+					// assigned as a whole: the field of what is assigned
+					if v := structFieldValue(r.Val, field, d+1); v != nil {
+						n++
+						val = v
+					} else {
+						n += 2
+					}
+				}
+			}
+		}
+		if n == 1 {
+			return val
+		}
+	}
+	return nil
+}
+
 // CellName returns the source name of the variable a cell address denotes ("" if unknown).
 func CellName(addr ssa.Value) string {
 	if a := CellOf(addr); a != nil {
@@ -199,6 +335,10 @@ func CellName(addr ssa.Value) string {
 // functions with defers store each result into a local cell, run the defers and return loads of those cells.
 // The last store into the cell in the returning block is the value.
 func RetVal(ret *ssa.Return, i int) ssa.Value {
+	return onActivePath(retVal(ret, i))
+}
+
+func retVal(ret *ssa.Return, i int) ssa.Value {
 	if i >= len(ret.Results) {
 		return nil
 	}
@@ -384,4 +524,34 @@ func ForwardFieldLoad(v ssa.Value) ssa.Value {
 		return v
 	}
 	return best.Val
+}
+
+// ReceiverBinding: for the receiver parameter of a method that is a closure in all but syntax (its only use is one method value),
+// the value bound as receiver where that method value is created; nil for anything else.
+func ReceiverBinding(v ssa.Value) ssa.Value {
+	x, ok := unwrapNoPath(v).(*ssa.Parameter)
+	if !ok {
+		return nil
+	}
+	g := x.Parent()
+	b := BinderOf(g)
+	if b == nil || len(g.Params) == 0 || g.Params[0] != x {
+		return nil
+	}
+	var bound ssa.Value
+	n := 0
+	InstrsOwn(b, func(in ssa.Instruction) {
+		if mk, isMk := in.(*ssa.MakeClosure); isMk && len(mk.Bindings) == 1 {
+			if w, isF := mk.Fn.(*ssa.Function); isF {
+				if t, shift := MethodBehind(w); shift == 1 && t == bodyOf(g) {
+					bound = mk.Bindings[0]
+					n++
+				}
+			}
+		}
+	})
+	if n == 1 {
+		return bound
+	}
+	return nil
 }
